@@ -62,7 +62,7 @@ EvA0(n, af, o, v) == [k |-> "a0", r |-> n, af |-> af, io |-> o, v |-> v, s |-> 0
 
 \* a frame: node, apply mode, requested rewind mode, action family, program counter, loop index,
 \* sv: cursor saved by the rule's own guard (-1 none), mg: cursor saved by match()'s guard (-1 none), av: action result
-Frame(n, A, M, af) == [n |-> n, A |-> A, M |-> M, af |-> af, pc |-> "enter", i |-> 0, sv |-> -1, mg |-> -1, entry |-> -1]
+Frame(n, A, M, af) == [n |-> n, A |-> A, M |-> M, af |-> af, pc |-> "enter", i |-> 0, lp |-> 0, sv |-> -1, mg |-> -1, entry |-> -1]
 
 Top == fr[Len(fr)]
 SetTop(f) == [fr EXCEPT ![Len(fr)] = f]
@@ -91,7 +91,11 @@ Enter ==
 AtomStep(n) ==
    LET r == D!DenX(D!Lift(n), cur, [A |-> 0, lim |-> N, fam |-> 0, vis |-> 0, eol |-> Cfg.eol, ib |-> Cfg.ib, il |-> Cfg.il, ic |-> Cfg.ic, dep |-> 0], 3)
    IN IF r.k = "T" THEN <<1, r.e>> ELSE <<0, cur>>
-Atoms == {"any", "one", "not_one", "range", "not_range", "string", "istring", "eof", "success", "failure", "eol", "eolf", "bytes", "ranges"}
+\* rules without sub-rules that match in one step (their peeks and bumps are not modelled individually)
+NonAtoms == {"raise", "apply", "apply0", "opaque", "seq", "sor"}
+IsAtom(n) == Nodes[n].ikids = <<>> /\ Nodes[n].iop \notin NonAtoms
+\* internal rules that are called without being listed in subs_t: found in the table by their shape
+NotAtOf(r) == {m \in 1..Len(Nodes) : Nodes[m].iop = "not_at" /\ Nodes[m].ikids = <<r>> /\ Nodes[m].en = 0}
 
 \* return from the body with value v (the body's frame stays: match() continues in "after")
 BodyDone(f, v) == /\ fr' = SetTop([f EXCEPT !.pc = "after", !.i = v])
@@ -112,7 +116,7 @@ Body ==
        M == BodyM(f)
    IN
    /\ exc = NoExc /\ done = -1 /\ q = <<>> /\ f.pc \in {"body", "k"}
-   /\ CASE op \in Atoms ->
+   /\ CASE IsAtom(f.n) ->
              LET a == AtomStep(f.n) IN cur' = a[2] /\ BodyDone(f, a[1])
         \* internal/seq.hpp: one rule forwards M; otherwise guard< M >, all sub-rules optional
         [] op = "seq" ->
@@ -160,6 +164,79 @@ Body ==
                   /\ q' = <<EvHook("ra", ks[1], cur)>>
                   /\ fr' = SetTop([f EXCEPT !.pc = "thrown"])
                   /\ UNCHANGED <<cur, ret, done>>
+        \* internal/raise.hpp: Control< T >::raise
+        [] op = "raise" ->
+             /\ exc' = [who |-> f.n, at |-> cur, cls |-> 1]
+             /\ q' = <<EvHook("ra", Nodes[f.n].ip[1], cur)>>
+             /\ fr' = SetTop([f EXCEPT !.pc = "thrown"])
+             /\ UNCHANGED <<cur, ret, done>>
+        \* internal/if_must.hpp: Cond with M (required when the default result is success, fix e45e59f), then must< Rules... >
+        [] op \in {"if_must", "opt_must"} ->
+             IF f.pc = "body" THEN CallKid(f, 1, f.A, IF op = "opt_must" THEN 1 ELSE M, "k")
+             ELSE IF f.i = 1 /\ ret = 0 THEN cur' = cur /\ BodyDone(f, IF op = "opt_must" THEN 1 ELSE 0)
+             ELSE IF f.i = 1 THEN CallKid(f, 2, f.A, M, "k")
+             ELSE cur' = cur /\ BodyDone(f, 1)
+        \* internal/until.hpp: guard< M >; Cond required; without Rules bump one byte, fail at the end of the input
+        [] op = "until" ->
+             IF f.pc = "body" THEN CallKid([f EXCEPT !.sv = IF M = 1 THEN cur ELSE -1], 1, f.A, 1, "k")
+             ELSE IF f.i = 1 /\ ret = 1 THEN cur' = cur /\ BodyDone(f, 1)
+             ELSE IF f.i = 1 /\ nk = 1
+                  THEN IF cur = N THEN /\ cur' = IF f.sv >= 0 THEN f.sv ELSE cur
+                                       /\ BodyDone(f, 0)
+                       ELSE /\ cur' = cur + 1
+                            /\ fr' = Append(SetTop([f EXCEPT !.pc = "k", !.i = 1]), Frame(ks[1], f.A, 1, f.af))
+                            /\ ret' = -1 /\ UNCHANGED <<exc, q, done>>
+             ELSE IF f.i = 1 THEN CallKid(f, 2, f.A, 0, "k")
+             ELSE IF ret = 0 THEN /\ cur' = IF f.sv >= 0 THEN f.sv ELSE cur
+                                  /\ BodyDone(f, 0)
+             ELSE CallKid(f, 1, f.A, 1, "k")
+        \* internal/rep.hpp: guard< M >, Cnt times optional
+        [] op = "rep" ->
+             IF f.pc = "body" THEN CallKid([f EXCEPT !.sv = IF M = 1 THEN cur ELSE -1, !.lp = 1], 1, f.A, 0, "k")
+             ELSE IF ret = 0 THEN /\ cur' = IF f.sv >= 0 THEN f.sv ELSE cur
+                                  /\ BodyDone(f, 0)
+             ELSE IF f.lp = Nodes[f.n].ip[1] THEN cur' = cur /\ BodyDone(f, 1)
+             ELSE CallKid([f EXCEPT !.lp = f.lp + 1], 1, f.A, 0, "k")
+        \* internal/rep_opt.hpp: up to Max times required; always true
+        [] op = "rep_opt" ->
+             IF f.pc = "body" THEN CallKid([f EXCEPT !.lp = 1], 1, f.A, 1, "k")
+             ELSE IF ret = 0 \/ f.lp = Nodes[f.n].ip[1] THEN cur' = cur /\ BodyDone(f, 1)
+             ELSE CallKid([f EXCEPT !.lp = f.lp + 1], 1, f.A, 1, "k")
+        \* internal/rep_min_max.hpp: guard< M >; Min times optional, up to Max required (stop => true), then not_at< Rule >
+        [] op = "rep_min_max" ->
+             LET mn == Nodes[f.n].ip[1]  mx == Nodes[f.n].ip[2] IN
+             IF f.pc = "body" /\ mx = 0 THEN cur' = cur /\ BodyDone(f, 0)          \* (< Min, Max > with an empty pack is failure)
+             ELSE IF f.pc = "body" THEN CallKid([f EXCEPT !.sv = IF M = 1 THEN cur ELSE -1, !.lp = 1], 1, f.A, IF mn >= 1 THEN 0 ELSE 1, "k")
+             ELSE IF f.lp = mx + 1                                                \* the trailing not_at< Rule > returned
+                  THEN /\ cur' = IF ret = 0 /\ f.sv >= 0 THEN f.sv ELSE cur
+                       /\ BodyDone(f, ret)
+             ELSE IF ret = 0 /\ f.lp <= mn THEN /\ cur' = IF f.sv >= 0 THEN f.sv ELSE cur
+                                                /\ BodyDone(f, 0)
+             ELSE IF ret = 0 THEN cur' = cur /\ BodyDone(f, 1)
+             ELSE IF f.lp = mx
+                  THEN /\ NotAtOf(ks[1]) # {}
+                       /\ fr' = Append(SetTop([f EXCEPT !.pc = "k", !.lp = mx + 1]), Frame(CHOOSE m \in NotAtOf(ks[1]) : TRUE, f.A, 0, f.af))
+                       /\ ret' = -1 /\ UNCHANGED <<cur, exc, q, done>>
+             ELSE CallKid([f EXCEPT !.lp = f.lp + 1], 1, f.A, IF f.lp + 1 <= mn THEN 0 ELSE 1, "k")
+        \* internal/if_then_else.hpp: guard< M >; Cond required; Then / Else optional; Else is not tried after Then failed
+        [] op = "if_then_else" ->
+             IF f.pc = "body" THEN CallKid([f EXCEPT !.sv = IF M = 1 THEN cur ELSE -1], 1, f.A, 1, "k")
+             ELSE IF f.i = 1 THEN CallKid(f, IF ret = 1 THEN 2 ELSE 3, f.A, 0, "k")
+             ELSE /\ cur' = IF ret = 0 /\ f.sv >= 0 THEN f.sv ELSE cur
+                  /\ BodyDone(f, ret)
+        \* internal/enable.hpp, disable.hpp, action.hpp: one parameter of the run switched for the sub-tree, M forwarded
+        [] op \in {"enable", "disable", "action"} ->
+             IF f.pc = "body"
+             THEN /\ fr' = Append(SetTop([f EXCEPT !.pc = "k", !.i = 1]),
+                                  Frame(ks[1], IF op = "enable" THEN 1 ELSE IF op = "disable" THEN 0 ELSE f.A, M,
+                                        IF op = "action" THEN Nodes[f.n].ip[1] ELSE f.af))
+                  /\ ret' = -1 /\ UNCHANGED <<cur, exc, q, done>>
+             ELSE cur' = cur /\ BodyDone(f, ret)
+        \* internal/try_catch_raise_nested.hpp: required guard; sub-rule optional (a caught exception is handled in Unwind)
+        [] op = "try_catch_raise_nested" ->
+             IF f.pc = "body" THEN CallKid([f EXCEPT !.sv = cur], 1, f.A, 0, "k")
+             ELSE /\ cur' = IF ret = 0 THEN f.sv ELSE cur
+                  /\ BodyDone(f, ret)
         \* internal/try_catch_return_false.hpp: guard< M > outside the try, sub-rule optional
         [] op = "try_catch_return_false" ->
              IF f.pc = "body" THEN CallKid([f EXCEPT !.sv = IF M = 1 THEN cur ELSE -1], 1, f.A, 0, "k")
@@ -207,9 +284,15 @@ After ==
 Unwind ==
    LET f == Top
        catches == Nodes[f.n].iop = "try_catch_return_false" /\ f.pc = "k" /\ D!Catches(Nodes[f.n].ip[1], exc.who)
+       nests == Nodes[f.n].iop = "try_catch_raise_nested" /\ f.pc = "k" /\ D!Catches(Nodes[f.n].ip[1], exc.who)
    IN
    /\ exc # NoExc /\ done = -1 /\ q = <<>>
-   /\ IF catches
+   /\ IF nests
+      THEN \* catch( ... ) { Control< Rule >::raise_nested( in.position( m.inputerator() ), st... ); }  -- no hook is called for it
+           /\ exc' = [who |-> Nodes[f.n].ikids[1], at |-> f.sv, cls |-> 1]
+           /\ fr' = SetTop([f EXCEPT !.pc = "thrown"])
+           /\ UNCHANGED <<cur, ret, q, done>>
+      ELSE IF catches
       THEN \* catch( ... ) { return false; }  -- the guard constructed before the try restores
            /\ cur' = IF f.sv >= 0 THEN f.sv ELSE cur
            /\ exc' = NoExc
